@@ -482,6 +482,7 @@ for e, props in (('b_rt_times', ['C01', 'C03', 'C04', 'C05', 'C06', 'C08', 'C14'
 
 # unit c09: whole scenarios written against the public macros (driver functions), lowered with the user's closures (C09, partial)
 UNITS['c09'] = {
+    'unwinding_ghost': True,
     'opaque': [' get_lock$'],
     'dyn_types': [r'^sequence_handler<[012]>$', r'^call_matcher<.*>$', r'^return_handler_t<.*lambdaat.*>$', r'^condition<.*\(lambdaat.*\)>$', r'^side_effect<.*\(lambdaat.*\)>$', r'^vp_vp_MI$'],
     'roots': {'C09_ALIAS': '^_ZN14vp_trompeloeil12vp_c09_aliasE', 'C09_LR': '^_ZN14vp_trompeloeil16vp_c09_lr_returnE', 'C09_POS': '^_ZN14vp_trompeloeil16vp_c09_positionsE', 'C09_A15': '^_ZN14vp_trompeloeil14vp_c09_arity15E', 'C09_A15T': '^_ZN14vp_trompeloeil20vp_c09_arity15_throwE', 'C09_RV': '^_ZN14vp_trompeloeil13vp_c09_rvalueE', 'C09_MO': '^_ZN14vp_trompeloeil15vp_c09_moveonlyE', 'C14_MOVE': '^_ZN14vp_trompeloeil11vp_c14_moveE', 'C08_THROW': '^_ZN14vp_trompeloeil12vp_c08_throwE', 'C15_PM': '^_ZN14vp_trompeloeil21vp_c15_param_mismatchE', 'C04_UNF': '^_ZN14vp_trompeloeil18vp_c04_unfulfilledE', 'C04_UNW': '^_ZN14vp_trompeloeil14vp_c04_unwoundE', 'OBS15': 'rec:^vp_vp_obs15$', 'OBS': 'rec:^vp_vp_obs$'},
